@@ -79,7 +79,11 @@ impl TaskValid {
                 true => Some("true".to_owned()),
                 false => Some("false".to_owned()),
             },
-            None => attr.as_str().map(String::from),
+            // a number is a condition too (`when: 0`): it used to be dropped, and the task always ran
+            None => match attr {
+                Value::Number(n) => Some(n.to_string()),
+                _ => attr.as_str().map(String::from),
+            },
         }
     }
 
